@@ -12,7 +12,10 @@
    np.unique.  [exact_on v] says rounding neither changes nor removes an image
    of v (exact equality is then the de-duplication relation); the 1e-10
    threshold stratum, where this fails, is C10_rounding_splits_cluster_refuted
-   and a known finding. *)
+   and a known finding.  Two defects of orix found by this property
+   (multiplicity of n-d objects, angle_with with several other vectors) are
+   repaired; their clauses are proved at full strength (C10_multiplicity_nd,
+   C10_angle_min_over_orbit, C10_angle_elementwise). *)
 From Coq Require Import ZArith List Bool Arith Reals.
 From Verif Require Import NdIndex C17Unique C17UniqueSpec C10Model C10Orbit C10Sym C10Inst C10Round.
 Import ListNotations.
@@ -125,7 +128,25 @@ Proof.
 Qed.
 Print Assumptions C10_multiplicity_invariant.
 
-(* Miller.multiplicity of a 1-d object: element-wise number of distinct images *)
+(* Miller.multiplicity of an object of ANY shape (data = its C-order list):
+   multiplicity[ix] = number of distinct (rounded) images of self[ix].  (Before
+   the repair of orix -- column-major flatten, row-major reshape -- this held
+   for 1-d objects only.) *)
+Theorem C10_multiplicity_nd :
+  forall (G E K : Type) (cmp : K -> K -> comparison), cmp_order cmp ->
+  forall (rnd : E -> E) (iszero : E -> bool) (key : E -> K) (d zero : E) (exact0 : E -> bool)
+         (act : G -> E -> E) (ops : list G),
+  exact0 zero = true -> (forall e, exact0 e = true -> iszero e = true) ->
+  forall shape (data : list E), length data = size shape ->
+  multiplicity cmp rnd iszero key d zero exact0 act ops shape data
+  = map (fun v => length (block_of cmp rnd iszero key d act ops v)) data.
+Proof.
+  exact (fun G E K cmp CO rnd iszero key d zero exact0 act ops Z0 Z1 shape data H =>
+           multiplicity_nd cmp CO rnd iszero key d zero exact0 act ops Z0 Z1 shape data H).
+Qed.
+Print Assumptions C10_multiplicity_nd.
+
+(* the 1-d case *)
 Theorem C10_multiplicity_1d :
   forall (G E K : Type) (cmp : K -> K -> comparison), cmp_order cmp ->
   forall (rnd : E -> E) (iszero : E -> bool) (key : E -> K) (d zero : E) (exact0 : E -> bool)
@@ -140,33 +161,6 @@ Proof.
 Qed.
 Print Assumptions C10_multiplicity_1d.
 
-(* FULL STATEMENT (any shape): multiplicity[ix] = number of distinct images of
-   self[ix] -- REFUTED for 2-d objects (column-major flatten, row-major
-   reshape); m-3m, shape (2,3): [[6,48,12],[6,8,24]] instead of
-   [[6,12,8],[48,6,24]].  Replayed on the implementation by the check. *)
-Theorem C10_multiplicity_nd_refuted :
-  exists (ops : list zm3) (shape : list nat) (data : list zv3) (k : nat),
-    group_action zmmul ztrans zmid zact ops /\ length data = size shape /\ k < length data /\
-    nth k (zmultiplicity ops shape data) 0 <> length (zblock ops (nth k data z0)).
-Proof. exact multiplicity_nd_refuted. Qed.
-Print Assumptions C10_multiplicity_nd_refuted.
-
-(* what holds for every shape: the multiplicities of the column-major
-   enumeration of the vectors, laid out row-major *)
-Theorem C10_multiplicity_nd_partial :
-  forall (G E K : Type) (cmp : K -> K -> comparison), cmp_order cmp ->
-  forall (rnd : E -> E) (iszero : E -> bool) (key : E -> K) (d zero : E) (exact0 : E -> bool)
-         (act : G -> E -> E) (ops : list G),
-  exact0 zero = true -> (forall e, exact0 e = true -> iszero e = true) ->
-  forall shape (data : list E),
-  multiplicity cmp rnd iszero key d zero exact0 act ops shape data
-  = map (fun v => length (block_of cmp rnd iszero key d act ops v)) (flattenF d shape data).
-Proof.
-  exact (fun G E K cmp CO rnd iszero key d zero exact0 act ops Z0 Z1 shape data =>
-           multiplicity_nd_partial cmp CO rnd iszero key d zero exact0 act ops Z0 Z1 shape data).
-Qed.
-Print Assumptions C10_multiplicity_nd_partial.
-
 (* FULL STATEMENT (near-duplicates at the 1e-10 threshold are merged) REFUTED:
    de-duplication by comparing rounded values splits a cluster of evaluations
    of the same image that differ by one unit in the 11th decimal; the
@@ -180,59 +174,58 @@ Proof. exact rounding_splits_cluster_refuted. Qed.
 Print Assumptions C10_rounding_splits_cluster_refuted.
 
 (* ------------------------------------------- angle_with(use_symmetry=True) *)
-(* with ONE other vector: each returned angle is a minimum of the angles
-   between the vector of self and all images of the other vector *)
+(* ANY shapes (objects as shape + C-order list): self and other are broadcast
+   against each other by the NumPy rules, and the entry at every index of the
+   broadcast shape is a minimum of the angles between the vector of self and
+   ALL images of the corresponding vector of other -- and of no other vector.
+   No hypothesis on rounding is left: the images are no longer de-duplicated. *)
 Theorem C10_angle_min_over_orbit :
-  forall (G E K A : Type) (cmp : K -> K -> comparison), cmp_order cmp ->
-  forall (rnd : E -> E) (iszero : E -> bool) (key : E -> K) (d zero : E) (exact0 : E -> bool)
-         (act : G -> E -> E) (ops : list G) (leb : A -> A -> bool) (ang : E -> E -> A),
-  exact0 zero = true -> (forall e, exact0 e = true -> iszero e = true) ->
-  (forall x y, keq cmp (key x) (key y) = true <-> x = y) ->
+  forall (G E A : Type) (leb : A -> A -> bool) (ang : E -> E -> A) (act : G -> E -> E) (ops : list G) (d : E),
   (forall x y, leb x y = true \/ leb y x = true) ->
   (forall x y z, leb x y = true -> leb y z = true -> leb x z = true) ->
-  forall (self : list E) (w : E) res,
-  exact_on rnd iszero act ops w ->
-  angle_with_sym leb ang self (other2 cmp rnd iszero key d zero exact0 act ops [w]) = Some res ->
-  length res = length self /\
-  forall i, i < length self ->
-    is_min leb (nth i res (ang d d)) (map (fun g => ang (nth i self d) (act g w)) ops).
+  forall (sS sO : list nat) (self other : list E) s res,
+  angle_with_sym leb ang act ops d sS sO self other = Some (s, res) ->
+  bshape sS sO = Some s /\ length res = size s /\
+  forall k, k < size s ->
+    is_min leb (nth k res (ang d d))
+      (map (fun g => ang (nth (ravel (pad_shape (length s) sS) (bidx (pad_shape (length s) sS) (unravel s k))) self d)
+                         (act g (nth (ravel (pad_shape (length s) sO) (bidx (pad_shape (length s) sO) (unravel s k))) other d)))
+           ops).
 Proof.
-  exact (fun G E K A cmp CO rnd iszero key d zero exact0 act ops leb ang Z0 Z1 KE LT LTr self w res =>
-           angle_min_over_orbit cmp CO rnd iszero key d zero exact0 act ops leb ang Z0 Z1 KE LT LTr self w res).
+  exact (fun G E A leb ang act ops d LT LTr sS sO self other s res =>
+           angle_with_sym_spec leb ang act ops d LT LTr sS sO self other s res).
 Qed.
 Print Assumptions C10_angle_min_over_orbit.
 
-(* FULL STATEMENT (element-wise for equally shaped self/other) REFUTED: m-3m,
-   self = [100],[110], other = [501],[111]: the second angle is the angle to
-   an image of [501].  Replayed on the implementation by the check. *)
-Theorem C10_angle_elementwise_refuted :
-  exists (ops : list zm3) (self other : list zv3) (res : list (Z * Z)) (i : nat),
-    group_action zmmul ztrans zmid zact ops /\ length self = length other /\ i < length self /\
-    zangle_with_sym ops self other = Some res /\
-    ~ is_min zang_leb (nth i res (0, 0)%Z)
-             (map (fun g => zang (nth i self z0) (zact g (nth i other z0))) ops).
-Proof. exact angle_elementwise_refuted. Qed.
-Print Assumptions C10_angle_elementwise_refuted.
-
-(* what holds for every other: minimum over the blocks of ALL other vectors *)
-Theorem C10_angle_all_others_partial :
-  forall (G E K A : Type) (cmp : K -> K -> comparison), cmp_order cmp ->
-  forall (rnd : E -> E) (iszero : E -> bool) (key : E -> K) (d zero : E) (exact0 : E -> bool)
-         (act : G -> E -> E) (ops : list G) (leb : A -> A -> bool) (ang : E -> E -> A),
-  exact0 zero = true -> (forall e, exact0 e = true -> iszero e = true) ->
+(* equally many vectors: ELEMENT-WISE (the clause the unrepaired code violated) *)
+Theorem C10_angle_elementwise :
+  forall (G E A : Type) (leb : A -> A -> bool) (ang : E -> E -> A) (act : G -> E -> E) (ops : list G) (d : E),
   (forall x y, leb x y = true \/ leb y x = true) ->
   (forall x y z, leb x y = true -> leb y z = true -> leb x z = true) ->
-  forall (self other : list E) res,
-  angle_with_sym leb ang self (other2 cmp rnd iszero key d zero exact0 act ops other) = Some res ->
-  length res = length self /\
-  forall i, i < length self ->
-    is_min leb (nth i res (ang d d))
-           (map (ang (nth i self d)) (concat (map (block_of cmp rnd iszero key d act ops) other))).
+  forall n (self other : list E), ops <> [] ->
+  exists res, angle_with_sym leb ang act ops d [n] [n] self other = Some ([n], res) /\ length res = n /\
+    forall i, i < n ->
+      is_min leb (nth i res (ang d d)) (map (fun g => ang (nth i self d) (act g (nth i other d))) ops).
 Proof.
-  exact (fun G E K A cmp CO rnd iszero key d zero exact0 act ops leb ang Z0 Z1 LT LTr self other res =>
-           angle_with_sym_spec cmp CO rnd iszero key d zero exact0 act ops leb ang Z0 Z1 LT LTr self other res).
+  exact (fun G E A leb ang act ops d LT LTr n self other =>
+           angle_elementwise leb ang act ops d LT LTr n self other).
 Qed.
-Print Assumptions C10_angle_all_others_partial.
+Print Assumptions C10_angle_elementwise.
+
+(* one other vector: the minimum over its images, for every vector of self *)
+Theorem C10_angle_one_other :
+  forall (G E A : Type) (leb : A -> A -> bool) (ang : E -> E -> A) (act : G -> E -> E) (ops : list G) (d : E),
+  (forall x y, leb x y = true \/ leb y x = true) ->
+  (forall x y z, leb x y = true -> leb y z = true -> leb x z = true) ->
+  forall n (self : list E) (w : E), ops <> [] ->
+  exists res, angle_with_sym leb ang act ops d [n] [1] self [w] = Some ([n], res) /\ length res = n /\
+    forall i, i < n ->
+      is_min leb (nth i res (ang d d)) (map (fun g => ang (nth i self d) (act g w)) ops).
+Proof.
+  exact (fun G E A leb ang act ops d LT LTr n self w =>
+           angle_one_other leb ang act ops d LT LTr n self w).
+Qed.
+Print Assumptions C10_angle_one_other.
 
 (* --------------------------------------------- unique(use_symmetry=True) *)
 (* exactly one returned vector per orbit: every non-zero input vector (as
@@ -308,3 +301,18 @@ Proof. exact sym_unique_4. Qed.
 Example C10_key_order_nonvacuous :
   cmp_order zcmp /\ (forall x y, keq zcmp (zkey x) (zkey y) = true <-> x = y).
 Proof. exact (conj zcmp_order zkey_eq). Qed.
+(* the inputs on which the unrepaired code went wrong: m-3m, the (2,3) object
+   [100],[110],[111] / [123],[001],[112] has multiplicities 6,12,8 / 48,6,24;
+   [100],[110] against [501],[111]: the second angle is the one to the nearest
+   image of [111] (cos^2 = 4/6), which the angle to an image of [501] (36/52) is not *)
+Example C10_multiplicity_nd_nonvacuous :
+  group_action zmmul ztrans zmid zact z_m3m /\ length w_data = size w_shape /\
+  zmultiplicity z_m3m w_shape w_data = [6; 12; 8; 48; 6; 24] /\
+  map (fun v => length (zblock z_m3m v)) w_data = [6; 12; 8; 48; 6; 24].
+Proof. exact multiplicity_nd_example. Qed.
+Example C10_angle_elementwise_nonvacuous :
+  zangle_with_sym z_m3m [(1, 0, 0); (1, 1, 0)]%Z [(5, 0, 1); (1, 1, 1)]%Z
+  = Some ([2], [(5, 26); (2, 3)]%Z) /\
+  is_min zang_leb (2, 3)%Z (map (fun g => zang (1, 1, 0)%Z (zact g (1, 1, 1)%Z)) z_m3m) /\
+  ~ is_min zang_leb (6, 26)%Z (map (fun g => zang (1, 1, 0)%Z (zact g (1, 1, 1)%Z)) z_m3m).
+Proof. exact angle_elementwise_example. Qed.
